@@ -25,6 +25,8 @@ type State struct {
 	Dead    map[string]int            // gateway id -> tokens stuck (no effective flow)
 	Ends    map[string]int            // end event id -> tokens consumed there
 	Errors  []string                  // gateway ids, one per expected "no effective flow" error trace
+	// CondErrs counts the evaluations of conditions that cannot be evaluated (kind "fail"): one error trace each
+	CondErrs int
 	Started map[string]bool           // start events fired
 	// Path collects the kinds of silent steps of the last action (class labels).
 	Path map[string]bool
@@ -76,7 +78,23 @@ func (s *State) StartOne(id string) {
 }
 
 // emitAll puts a token on every outgoing flow whose condition holds.
+// countFails: every conditional outgoing flow (other than the default flow) is evaluated once per token
+func (s *State) countFails(n *gen.Node) {
+	for _, fid := range n.Out {
+		if fid == n.Default {
+			continue
+		}
+		if c := s.G.Flow(fid).Cond; c != nil && c.Kind == "fail" {
+			if c.Lang == "xpath" || (c.Lang == "" && s.G.Lang == "xpath") {
+				continue // XPath: a path selecting nothing is simply false
+			}
+			s.CondErrs++
+		}
+	}
+}
+
 func (s *State) emitCond(n *gen.Node, work *[]arrival) int {
+	s.countFails(n)
 	taken := 0
 	for _, fid := range n.Out {
 		f := s.G.Flow(fid)
@@ -210,6 +228,7 @@ func (s *State) addJoin(id, via string) {
 }
 
 func (s *State) routeXor(n *gen.Node, work *[]arrival) {
+	s.countFails(n)
 	for _, fid := range n.Out {
 		if fid == n.Default {
 			continue
@@ -233,6 +252,7 @@ func (s *State) routeXor(n *gen.Node, work *[]arrival) {
 }
 
 func (s *State) forkOr(n *gen.Node, work *[]arrival) {
+	s.countFails(n)
 	taken := 0
 	for _, fid := range n.Out {
 		if fid == n.Default {
@@ -512,5 +532,6 @@ func (s *State) Clone() *State {
 	}
 	n.CondDecided = s.CondDecided
 	n.MaxPending = s.MaxPending
+	n.CondErrs = s.CondErrs
 	return n
 }
